@@ -126,11 +126,11 @@ fn execute(h: &NetHistory) -> Recorded {
                 sum_b = bg;
             } else {
                 for (s, g) in sum_w.iter_mut().zip(wg.iter()) {
-                    s.add_inplace(g);
+                    add_tensor(s, g);
                 }
                 for (s, g) in sum_b.iter_mut().zip(bg.iter()) {
                     if let (Some(s), Some(g)) = (s.as_mut(), g.as_ref()) {
-                        s.add_inplace(g);
+                        add_tensor(s, g);
                     }
                 }
             }
